@@ -203,7 +203,7 @@ def run(ctx):
             if again is not real and not nf.mixed:
                 ctx.violation("C02:same-normal-form-different-objects", f"{model.show(t)} evaluated again after a refused operation is another object", {"term": t})
         if i % 1500 == 7 and nontrivial:
-            ctx.sample({"term": model.show(t), "value": str(real), "mixed_base": nf.mixed})
+            ctx.sample({"term": model.show(t), "value": core.safe_repr(real), "mixed_base": nf.mixed})
         # the same product in a shuffled evaluation order
         if t[0] == "mul" and rng.random() < 0.5:
             parts = flatten_product(t, [])
@@ -346,44 +346,62 @@ def dimension_and_prefix_trees(ctx, env, rng, n, firstd, firstp):
         val = {p.base: Fraction(p.exponent)} if p.base else {}
         desc = [p.name]
         ok = True
-        for _ in range(rng.randint(1, 5)):
-            r = rng.random()
-            o = rng.choice(prefixes + [Identity])
-            if r < 0.4:
-                p = p * o
-                if o.base:
-                    val[o.base] = val.get(o.base, 0) + Fraction(o.exponent)
-                desc.append(f"*{o.name or 'identity'}")
-            elif r < 0.7:
-                p = p / o
-                if o.base:
-                    val[o.base] = val.get(o.base, 0) - Fraction(o.exponent)
-                desc.append(f"/{o.name or 'identity'}")
-            elif r < 0.88:
-                k = rng.randint(-4, 4)
-                p = p**k
-                val = {bb: e * k for bb, e in val.items()}
-                desc.append(f"**{k}")
-            else:
-                k = rng.choice([-3, -2, -1, 1, 2, 3])
-                mixed = len([e for e in val.values() if e]) > 1 or not isinstance(p.exponent, int)
-                exact = all(e % k == 0 for e in val.values())
-                try:
-                    p2 = p.root(k)
-                except m.FractionalDimensionError:
-                    if exact and not mixed:
-                        ctx.violation("C02:prefix-exact-root-refused", f"{''.join(map(str, desc))}.root({k})", {"desc": desc})
-                    ok = False
-                    break
-                if not exact and not mixed:
-                    ctx.violation("C02:prefix-inexact-root-accepted", f"{''.join(map(str, desc))}.root({k}) = {p2!r}", {"desc": desc})
-                    ok = False
-                    break
-                if mixed:
-                    ok = False
-                    break
-                p, val = p2, {bb: e / k for bb, e in val.items()}
-                desc.append(f".root({k})")
+        twin = None
+        if rng.random() < 0.12:
+            # one number spelled in two bases (1024**k over 2**(10k), 1000**k over 10**(3k), ...): the quotient is 1 up to
+            # the rounding of a logarithm, so its exponent is 0.0 or a few 1e-16 - and the operators that follow (root(1)
+            # above all) must answer or refuse in their own words like for any other prefix
+            big, small, ratio = rng.choice([(1024, 2, 10), (1000, 10, 3), (16, 2, 4), (8, 2, 3), (100, 10, 2), (1024, 4, 5)])
+            k = rng.choice([-3, -2, -1, 1, 2, 3, 4])
+            p, twin = Prefix(big, k), Prefix(small, ratio * k)
+            val, desc = {big: Fraction(k)}, [f"P({big},{k})"]
+            ctx.count("prefix_trees_one_number_in_two_bases")
+        try:
+            for step in range(rng.randint(1, 5)):
+                r = rng.random()
+                o = rng.choice(prefixes + [Identity])
+                if twin is not None and step == 0:
+                    r, o = rng.choice([0.5, 0.5, 0.1]), twin
+                elif twin is not None and step == 1:
+                    r = 0.95
+                if r < 0.4:
+                    p = p * o
+                    if o.base:
+                        val[o.base] = val.get(o.base, 0) + Fraction(o.exponent)
+                    desc.append(f"*{o.name or (f'P({o.base},{o.exponent})' if o.base else 'identity')}")
+                elif r < 0.7:
+                    p = p / o
+                    if o.base:
+                        val[o.base] = val.get(o.base, 0) - Fraction(o.exponent)
+                    desc.append(f"/{o.name or (f'P({o.base},{o.exponent})' if o.base else 'identity')}")
+                elif r < 0.88:
+                    k = rng.randint(-4, 4)
+                    p = p**k
+                    val = {bb: e * k for bb, e in val.items()}
+                    desc.append(f"**{k}")
+                else:
+                    k = rng.choice([-3, -2, -1, 1, 2, 3])
+                    mixed = len([e for e in val.values() if e]) > 1 or not isinstance(p.exponent, int)
+                    exact = all(e % k == 0 for e in val.values())
+                    try:
+                        p2 = p.root(k)
+                    except m.FractionalDimensionError:
+                        if exact and not mixed:
+                            ctx.violation("C02:prefix-exact-root-refused", f"{''.join(map(str, desc))}.root({k})", {"desc": desc})
+                        ok = False
+                        break
+                    if not exact and not mixed:
+                        ctx.violation("C02:prefix-inexact-root-accepted", f"{''.join(map(str, desc))}.root({k}) = {p2!r}", {"desc": desc})
+                        ok = False
+                        break
+                    if mixed:
+                        ok = False
+                        break
+                    p, val = p2, {bb: e / k for bb, e in val.items()}
+                    desc.append(f".root({k})")
+        except Exception as e:
+            ctx.violation(f"C02:prefix-operator-raised:{type(e).__name__}", f"{''.join(map(str, desc))}, next operation raised {type(e).__name__}: {e}", {"desc": desc})
+            continue
         if not ok:
             continue
         val = {bb: e for bb, e in val.items() if e}
@@ -416,7 +434,7 @@ def sweep(ctx, env):
     seen = {}
     for key, u in list(Unit._known.items()):
         ctx.count("sweep/units")
-        if Unit._build_key(u.prefix, u.factors) != key:
+        if Unit(u.prefix, dict(u.factors), u.dimension) is not u:  # the table answers for this unit's own prefix and factors with another object
             ctx.violation("C02:unit-stored-under-foreign-key", f"{u!r}", {"unit": repr(u)})
         nf = mdl.nf_of_unit(u)
         if nf.mixed:
